@@ -345,8 +345,15 @@ func (w *World) UpdateSub(s *Sub, what string, r *rand.Rand) {
 			req.Subscription.RetryPolicy.MaximumBackoff = durationpb.New(nc.MaxB)
 		}
 	case "expiration_policy":
-		nc.TTL = []time.Duration{2 * time.Minute, time.Hour, 24 * time.Hour, 30 * 24 * time.Hour}[r.Intn(4)]
+		nc.TTL = []time.Duration{2 * time.Minute, time.Hour, 24 * time.Hour, 30 * 24 * time.Hour, 0, 0}[r.Intn(6)]
 		req.Subscription.ExpirationPolicy = &pubsubpb.ExpirationPolicy{Ttl: durationpb.New(nc.TTL)}
+		if nc.TTL == 0 {
+			// "no TTL given" (absent, or an explicit zero): the documented default
+			if r.Intn(2) == 0 {
+				req.Subscription.ExpirationPolicy = &pubsubpb.ExpirationPolicy{}
+			}
+			nc.TTL = defaultTTL
+		}
 	case "labels":
 		nc.Labels = map[string]string{"k": fmt.Sprint(r.Intn(5))}
 		req.Subscription.Labels = nc.Labels
@@ -694,6 +701,9 @@ func (w *World) checkDeliveries(s *Sub, via string, rms []*pubsubpb.ReceivedMess
 		bytes += len(pm.Data)
 		if pm.MessageId != m.ID || !ref.JSONEqual(pm.Data, m.Data) || !attrsEqual(pm.Attributes, m.Attrs) || pm.OrderingKey != m.Key {
 			w.violate("C02", "content-mismatch", "%s on %s: message %s differs from what was published: data %q vs %q attrs %v vs %v key %q vs %q", via, s.Name, short(m.ID), pm.Data, m.Data, pm.Attributes, m.Attrs, pm.OrderingKey, m.Key)
+		}
+		if pt := pm.PublishTime.AsTime(); !pt.Before(m.Pub.Lo) && !pt.After(m.Pub.Hi) {
+			m.PubExact = pt
 		}
 		if pt := pm.PublishTime.AsTime(); pt.Before(m.Pub.Lo) || pt.After(m.Pub.Hi) {
 			w.violate("C02", "publish-time", "%s on %s: message %s publish_time %s outside publish call %s", via, s.Name, short(m.ID), ts(pt), m.Pub)
@@ -1186,6 +1196,15 @@ func (w *World) SeekTime(name string, t time.Time) {
 		}
 		before := !d.Arr.Hi.After(t)
 		after := d.Arr.Lo.After(t)
+		if !d.Forwarded && !d.Msg.PubExact.IsZero() {
+			// the server has told the client the exact publish time: "at or before"
+			// is decidable, also for a seek to exactly that instant
+			before = !d.Msg.PubExact.After(t)
+			after = !before
+			if d.Msg.PubExact.Equal(t) {
+				w.stat("seek_to_exact_publish_time", 1)
+			}
+		}
 		if d.Forwarded && !d.Msg.Pub.Hi.After(t) && after {
 			// "published" is ambiguous for a forwarded copy
 			d.Wild = true
